@@ -41,6 +41,7 @@ def pRel : P Rel := do
   if t == "H" then Rel.hook <$> nat
   else if t == "D" then pure .drain
   else if t == "N" then pure .never
+  else if t == "J" then pure .hijack
   else failure
 
 def pRound : P Round := do
@@ -49,6 +50,8 @@ def pRound : P Round := do
   let beh ← list pHB
   let ca ← opt nat
   let pair ← bool
+  -- harness only: the context of this (second, programmatic) round of a pair ends while it waits its turn
+  let _ctxEnds ← bool
   pure { trig := trig, beh := beh, cancelAt := ca, pair := pair }
 
 def pScenario : P Scenario := do
@@ -64,6 +67,8 @@ def pScenario : P Scenario := do
   -- hooks registered from inside the first OnStart hook; the stop signal is a deadline, not a cancel
   let _lateReg ← bool
   let _byDeadline ← bool
+  -- write timeout shorter than the shutdown timeout, a request that finishes late in the drain
+  let _shortWrite ← bool
   let m ← bool
   let t ← bool
   let l ← pListen
